@@ -20,6 +20,7 @@ import copy
 import hashlib
 import json
 import os
+import re
 import random
 import shutil
 import time
@@ -234,6 +235,7 @@ def gen_stream(rng, R=None, groups=None, anomalies=True, t_scale=None):
     uid = [0]
     serial = [rng.randrange(100, 90000)]
     flags = truth["flags"]
+    size_last = rng.random() < 0.15        # the "[<n>B]" size tag of a receive may stand behind its sync tag
 
     def mk(name, pid, tid, a, b, args):
         uid[0] += 1
@@ -276,7 +278,8 @@ def gen_stream(rng, R=None, groups=None, anomalies=True, t_scale=None):
                    dict(cgd, Peer=(str(dst) if peer_style == "str" else dst), Type="SingleCast", bytes=str(nb)))
             ra, rb = post[dst], max(sb, post[dst] + 1) + rng.randrange(1, 9)
             serial[0] += 1
-            r = mk(f"SenRdmaRecv_{serial[0]} [{nb}B] [sync={sync}] DmaI", dst, TID_I, ra, rb,
+            r = mk((f"SenRdmaRecv_{serial[0]} [sync={sync}] [{nb}B] DmaI" if size_last else
+                    f"SenRdmaRecv_{serial[0]} [{nb}B] [sync={sync}] DmaI"), dst, TID_I, ra, rb,
                    dict(cgd, Peer=str(src), Type="WDone Barrier", bytes=str(nb)))
             g["sends"].append({"uid": s["uid"], "peer": dst, "sync": sync, "recv": r["uid"]})
             g["recvs"].append({"uid": r["uid"], "sync": sync})
@@ -308,7 +311,8 @@ def gen_stream(rng, R=None, groups=None, anomalies=True, t_scale=None):
             dst = ranks[j]
             ra, rb = post[dst], max(b, post[dst] + 1) + rng.randrange(1, 12)
             serial[0] += 1
-            r = mk(f"SenRdmaRecv_{serial[0]} [{nb}B] [sync={sync_m}] DmaI", dst, TID_I, ra, rb,
+            r = mk((f"SenRdmaRecv_{serial[0]} [sync={sync_m}] [{nb}B] DmaI" if size_last else
+                    f"SenRdmaRecv_{serial[0]} [{nb}B] [sync={sync_m}] DmaI"), dst, TID_I, ra, rb,
                    dict(cgd, Peer=str(last), Type="WDone Barrier", bytes=str(nb)))
             g["sends"].append({"uid": xs[j]["uid"], "peer": dst, "sync": sync_m, "recv": r["uid"]})
             g["recvs"].append({"uid": r["uid"], "sync": sync_m})
@@ -487,6 +491,7 @@ def helpers_of(events):
 
 # ------------------------------------------------------------------------------------------------ oracle (kernel level)
 def _sync_of(name):
+    name = re.sub(r" \[\d+[Bb]\]", "", name)        # a "[<n>B]" size tag (before or behind the sync tag) is not part of it
     i = name.find(" [sync=")
     if i < 0:
         return None
